@@ -253,6 +253,37 @@ theorem vaOf_spec_carry (cfg : Cfg) (σ : Sched) (hσ : σ.IsSched) (prev : Outc
       · have : ¬ k ∈ (σ.defsVA defs).map (·.1) := fun h => hd ((hdefs k).mp h)
         simp [hd, this]
 
+/-- the `ValidAfterNanoseconds` section in a promotion round with a non-empty retirement report:
+    the predecessor's map is adopted wholesale, new channels start at the round's timestamp -/
+theorem vaOf_spec_promote (cfg : Cfg) (σ : Sched) (hσ : σ.IsSched) (prev : Outcome) (t : Tally) (ts : Nat)
+    (defs : GoMap Nat ChanDef) (removed : List Nat) (rr : RetirementReport)
+    (hp : promotedBy prev t = true) (hrr : t.validRR = some rr) (hne : rr.va.isEmpty = false) (k : Nat) :
+    get? (vaOf cfg σ prev t ts defs removed) k =
+      if k ∈ removed then none else
+      match get? rr.va k with
+      | some v => some v
+      | none => if defs.contains k then some ts else none := by
+  have hdefs : ∀ k, k ∈ (σ.defsVA defs).map (·.1) ↔ defs.contains k = true := by
+    intro k
+    rw [← mem_keys_iff]
+    exact ((hσ.2.2.2.1 defs).map _).mem_iff
+  have hva0 : va0Of cfg σ prev t = rr.va := by
+    unfold va0Of
+    simp [hp, hrr, hne]
+  unfold vaOf
+  simp only
+  rw [hva0, get?_foldl_erase, fillValidAfter_spec]
+  by_cases hr : k ∈ removed
+  · simp [hr]
+  · simp only [hr, if_false]
+    cases get? rr.va k with
+    | some v => rfl
+    | none =>
+      by_cases hd : defs.contains k = true
+      · simp [hd, (hdefs k).mpr hd]
+      · have : ¬ k ∈ (σ.defsVA defs).map (·.1) := fun h => hd ((hdefs k).mp h)
+        simp [hd, this]
+
 /-! ## well-formedness (distinct keys) is preserved -/
 
 theorem wf_foldl_erase {ν : Type} (m : GoMap Nat ν) (ids : List Nat) (h : WF m) :
